@@ -2,7 +2,7 @@
 """Regenerates /verif/MANIFEST.json from the table below (single source for the claims)."""
 import json, os
 V = os.path.dirname(os.path.dirname(os.path.abspath(__file__)))
-HOOK_COMMITS = ["b4cd205", "8b1d98b"]
+HOOK_COMMITS = ["b4cd205", "8b1d98b", "2561f25", "36a713e", "492ded8"]
 NOTE = ("bounded constants in TLC; conformance of the implementation is sampled (generated behaviours, recorded traces, "
         "crash images at hook events), the stepping API is trusted to drive the stages like the worker loops")
 CLAIMS = {
@@ -34,6 +34,14 @@ CLAIMS = {
          "TLC model checking of Lock.tla + behaviour replay with threads and child processes"),
  "C20": ("Migrate.tla: all source histories x option pairs x overwrite x forced selection with NoKeyLost / CountsCarryOver / SourceKept model-checked; generated behaviours replayed through parity_db::migrate with both databases projected (values and counts); a source with a pending index growth is a recorded known finding (F10)",
          "TLC model checking of Migrate.tla + behaviour replay"),
+ "C06": ("Pdb.tla pipeline model with value ids; the harness maps ids to values of every boundary length of the storage layout (255 tiers x {cap-1, cap, cap+1}, multipart part boundaries, 0..5 bytes, > 1 MiB), compressible or not, for compression none/lz4/snappy and several thresholds; recorded histories sweep every length with overwrites across tiers at every pipeline stage, restarts and crashes; TLC validates every read and the structural dumps (one stored value per live key, no leaked or double-used slot) and steady rounds",
+         "TLC trace validation against Pdb.tla with boundary-length concretization + structural dump invariants in TLA+"),
+ "C09": ("Index.tla (generations, pages, partial keys, value slots, reindex batches, drops, restarts) model-checked with Findable / OneSlotPerKey and a necessity config re-creating a fixed defect; recorded histories over 80 keys sharing one index chunk (groups agreeing on all index-visible bits) with reindex batches, restarts and crashes validated by TLC against Pdb.tla, plus structural dumps",
+         "TLC model checking of Index.tla + TLC trace validation with colliding key universes"),
+ "C14": ("structural invariants written in TLA+ (TracePdb.tla DumpOK) and evaluated by TLC on raw structure dumps of the implementation (free list, chains, every value indexed, one value per live key of the model, btree order / depth / reachability) at every drained point of recorded histories incl. recoveries; steady insert/remove rounds must stop growing the fill marks",
+         "TLA+ structural invariants evaluated by TLC on implementation dumps inside trace validation"),
+ "C19": ("PageSearch.tla transcribes the vectorised and the scalar page search at width 8 / block 4; TLC checks the four clauses of C19 for every page over a small entry domain x keys x start positions (2.1 M cases) and a sample of cases with the specification's answers is embedded into real 64-slot pages for six index sizes and replayed through a hook into both private functions",
+         "TLC exhaustive check of PageSearch.tla + case replay into the real search functions"),
 }
 PENDING_REASON = "check under construction in this round (spec module planned in DESIGN.md); not yet claimed"
 props = [json.loads(l) for l in open(os.path.join(V, "properties.jsonl"))]
